@@ -2,6 +2,7 @@ package symex
 
 import (
 	"go/types"
+	"math"
 	"reflect"
 
 	"verif/engine/smt"
@@ -249,6 +250,12 @@ func (c *Ctx) binaryTensorOp(op string, fn *ssa.Function, a []Value) Value {
 	if err != nil {
 		return c.retTensorErr(nil, err, fn.Signature)
 	}
+	// gorgonia's contiguous float division kernel (vecf32/vecf64.Div) maps x/0 to +Inf for
+	// every x, its iterator and scalar kernels divide the IEEE way: probe which one ran.
+	zeroDivIsPosInf := false
+	if op == "Div" && dtypeIsFloat(x.dt) && !c.Ring {
+		zeroDivIsPosInf = c.probeFloatDiv(x, y, fo)
+	}
 	var xs, ys []*smt.Term
 	n := 0
 	if x.sh != nil {
@@ -294,6 +301,13 @@ func (c *Ctx) binaryTensorOp(op string, fn *ssa.Function, a []Value) Value {
 			panic(c.abort("%s: element sorts %v vs %v but gorgonia accepted", op, xe.Sort, ye.Sort))
 		}
 		r := c.scalarOp(op, dt, xe, ye)
+		if zeroDivIsPosInf {
+			inf := c.St.F32C(float32(math.Inf(1)))
+			if so.K == smt.KFP64 {
+				inf = c.St.F64C(math.Inf(1))
+			}
+			r = c.St.Ite(c.St.FPEq(ye, c.St.Zero(so)), inf, r)
+		}
 		if isCmp(op) && fo.sameType {
 			r = c.St.Ite(r, c.one(so), c.St.Zero(so))
 		}
@@ -304,6 +318,98 @@ func (c *Ctx) binaryTensorOp(op string, fn *ssa.Function, a []Value) Value {
 		rdt = tensor.Bool
 	}
 	return c.retTensorErr(c.finishResult(res, fo, rdt, out), nil, fn.Signature)
+}
+
+// fillTwin overwrites every element of a twin tensor (or returns the scalar to pass).
+func fillTwin(o operand, val float64) (native interface{}, restore func()) {
+	if o.sh == nil {
+		if o.dt == tensor.Float32 {
+			return float32(val), func() {}
+		}
+		return val, func() {}
+	}
+	t := o.sh.twin
+	if t.IsScalar() {
+		old := t.Get(0)
+		if o.dt == tensor.Float32 {
+			t.Set(0, float32(val))
+		} else {
+			t.Set(0, val)
+		}
+		return t, func() { t.Set(0, old) }
+	}
+	switch d := t.Data().(type) {
+	case []float32:
+		old := append([]float32(nil), d...)
+		for i := range d {
+			d[i] = float32(val)
+		}
+		return t, func() { copy(d, old) }
+	case []float64:
+		old := append([]float64(nil), d...)
+		for i := range d {
+			d[i] = val
+		}
+		return t, func() { copy(d, old) }
+	}
+	return t, func() {}
+}
+
+// probeFloatDiv runs the real division on -1 / 0 with the operands' own layout.
+func (c *Ctx) probeFloatDiv(x, y operand, fo funcOpts) bool {
+	nx, rx := fillTwin(x, -1)
+	var ny interface{}
+	ry := func() {}
+	if y.sh != nil && x.sh != nil && y.sh.twin == x.sh.twin {
+		// one tensor object as both operands: -1 / -1 cannot probe; treat the IEEE way only when
+		// the kernel cannot be probed differently: probe with 0/0 instead
+		rx()
+		nx, rx = fillTwin(x, 0)
+		ny = nx
+	} else {
+		ny, ry = fillTwin(y, 0)
+	}
+	defer rx()
+	defer ry()
+	var res tensor.Tensor
+	var err error
+	if p := c.nativeCall("Div(probe)", func() { res, err = tensor.Div(nx, ny, fo.native...) }); p != nil || err != nil {
+		panic(c.abort("float division probe failed: %v %v", p, err))
+	}
+	rd := res.(*tensor.Dense)
+	var first float64
+	if rd.IsScalar() {
+		switch v := rd.ScalarValue().(type) {
+		case float32:
+			first = float64(v)
+		case float64:
+			first = v
+		}
+	} else {
+		switch d := rd.Data().(type) {
+		case []float32:
+			first = float64(d[0])
+			for _, v := range d {
+				if (float64(v) > 0) != (first > 0) || math.IsNaN(float64(v)) != math.IsNaN(first) {
+					panic(c.abort("float division probe: mixed kernels"))
+				}
+			}
+		case []float64:
+			first = d[0]
+			for _, v := range d {
+				if (v > 0) != (first > 0) || math.IsNaN(v) != math.IsNaN(first) {
+					panic(c.abort("float division probe: mixed kernels"))
+				}
+			}
+		}
+	}
+	switch {
+	case math.IsInf(first, 1):
+		return true
+	case math.IsInf(first, -1) || math.IsNaN(first):
+		return false
+	}
+	panic(c.abort("float division probe: unexpected result %v", first))
 }
 
 type simpleErr string
